@@ -27,7 +27,18 @@ var (
 	wkOnce   sync.Once
 	wkClient *wk.Client
 	hangSeen bool
+	// hangs and memory blow-ups cost seconds per evaluation: after a few of them
+	// shrinking is frozen on the last failing text (other texts are not judged)
+	expensiveFailures int
+	frozenText        string
 )
+
+func expensive(text string) {
+	expensiveFailures++
+	if expensiveFailures >= 8 {
+		frozenText = text
+	}
+}
 
 func worker(t testing.TB) *wk.Client {
 	wkOnce.Do(func() {
@@ -78,7 +89,7 @@ func adversarial(t *rapid.T) string {
 		}
 		return "\n"
 	}
-	switch rapid.IntRange(0, 11).Draw(t, "shape") {
+	switch rapid.IntRange(0, 12).Draw(t, "shape") {
 	case 0: // EQU cycle of length 1..4, with or without an assert that mentions it
 		n := rapid.IntRange(1, 4).Draw(t, "cyc")
 		var sb strings.Builder
@@ -132,10 +143,37 @@ func adversarial(t *rapid.T) string {
 		}
 		fmt.Fprintf(&sb, "a%d equ 1\nb%d equ 2\ndat a0\n", n, n)
 		return sb.String()
+	case 12: // EQU chains whose textual expansion doubles at every level, and Fibonacci-shaped ones
+		n := rapid.IntRange(3, 48).Draw(t, "explevels")
+		var sb strings.Builder
+		fib := rapid.Bool().Draw(t, "fib")
+		for i := 0; i < n; i++ {
+			if fib {
+				fmt.Fprintf(&sb, "a%d equ a%d-a%d\n", i, i+1, i+2)
+			} else {
+				fmt.Fprintf(&sb, "a%d equ a%d+a%d\n", i, i+1, i+1)
+			}
+		}
+		fmt.Fprintf(&sb, "a%d equ 1\na%d equ 1\n", n, n+1)
+		switch rapid.IntRange(0, 3).Draw(t, "expuse") {
+		case 0:
+			sb.WriteString("dat 0, a0\n")
+		case 1:
+			sb.WriteString("dat 0\n") // never used: only the symbol bookkeeping sees the chain
+		case 2:
+			sb.WriteString(";assert a0\ndat 0\n")
+		default:
+			m := rapid.IntRange(2, 400).Draw(t, "aliases")
+			for i := 0; i < m; i++ {
+				fmt.Fprintf(&sb, "b%d equ a%d\n", i, rapid.IntRange(0, 3).Draw(t, "aliasof"))
+			}
+			sb.WriteString("dat b0\n")
+		}
+		return sb.String()
 	case 9: // pseudo-ops in odd places
 		return rapid.SampledFrom([]string{"equ 5\n", "x equ\n", "org\n", "end end\n", "for\n", "x for\nrof\n", "org 0\norg 1\ndat 0\ndat 0\n", "end\ngarbage = | &\n", "x equ 1\nx equ 2\ndat x\n", "x dat 0\nx dat 1\n", "dat\n", "dat ,\n", "dat 1,\n", "mov.\n", ".\n", ":\n", "a:\n", "a: b: c:\n", ";assert\n", ";assert (\n", ";assert 1 ==\n", ";assert 1/0\ndat 0\n", "for 2\n;assert 0\nrof\n",
 			"x equ ;c\ndat x\n", "x equ;\ndat 1, x\n", "x equ ; c\ny equ x\ndat y+1\n", "x equ ;c\nfor x\ndat 0\nrof\n", "x equ ;c\n;assert x\ndat 0\n", "x equ ;c\norg x\ndat 0\n",
-			"org ;c\ndat 0\n", "end ;c\n", "for ;c\ndat 0\nrof\n", "dat ;c\n", "dat 1, ;c\n", "x equ ( ;c\ndat x )\n"}).Draw(t, "odd")
+			"org ;c\ndat 0\n", "end ;c\n", "for ;c\ndat 0\nrof\n", "dat ;c\n", "dat 0, \u0663\n", "dat \uff11\n", "dat 0\u0663\n", "x equ \u0663\ndat x\n", "for \u0663\ndat 0\nrof\n", ";assert \u0663\ndat 0\n", "dat \u00b2\n", "l\u0663 dat l\u0663\n", "dat 1, ;c\n", "x equ ( ;c\ndat x )\n"}).Draw(t, "odd")
 	case 10: // nested FORs with counters in counts
 		a := rapid.IntRange(0, 5).Draw(t, "a")
 		return fmt.Sprintf("i for %d\nj for i\ndat i, j\nrof\nrof\n", a) + "dat 0" + nl()
@@ -198,6 +236,9 @@ func request(c termCase) wk.Request {
 
 func judgeTermCase(t testing.TB) func(c termCase, rec *hx.Rec) string {
 	return func(c termCase, rec *hx.Rec) string {
+		if frozenText != "" && c.Text != frozenText {
+			return ""
+		}
 		est := rc.EstimateExpansion(c.Text)
 		if math.IsInf(est, 1) || est > expansionBound {
 			if rec != nil {
@@ -223,17 +264,20 @@ func judgeTermCase(t testing.TB) func(c termCase, rec *hx.Rec) string {
 				}
 				hangSeen = true
 			}
+			expensive(c.Text)
 			return fmt.Sprintf("CompileWarrior did not return within %v (expansion estimate %.0f tokens): hang\nsource: %q", caseDeadline, est, c.Text)
 		case wk.Died:
 			rs2, st2, _ := cl.Call(request(c), confirmFactor*caseDeadline)
 			if st2 == wk.OK && !rs2.OOM {
 				rs = rs2 // the worker had died for another reason; judge the retry
 			} else {
+				expensive(c.Text)
 				return fmt.Sprintf("the process running CompileWarrior died (fatal runtime error or memory cap)\nsource: %q", c.Text)
 			}
 		}
 		if rs.OOM {
-			return fmt.Sprintf("CompileWarrior exceeded the 1 GiB heap cap (expansion estimate %.0f tokens)\nsource: %q", est, c.Text)
+			expensive(c.Text)
+			return fmt.Sprintf("CompileWarrior exceeded the 256 MiB heap cap (expansion estimate %.0f tokens)\nsource: %q", est, c.Text)
 		}
 		if rs.Panic != "" {
 			return fmt.Sprintf("CompileWarrior panicked: %s\nsource: %q", clip(rs.Panic), c.Text)
@@ -267,7 +311,7 @@ func judgeTermCase(t testing.TB) func(c termCase, rec *hx.Rec) string {
 	}
 }
 
-const c05Rule = "inputs: valid programs (C03 and C08 generators), 1..6 token/byte mutations of them (delete/duplicate/transpose/replace/insert vocabulary words, line splices, truncation, NUL/^Z/0xFF/lone 0xC3/CR injection, CRLF, final newline removed, huge numbers), token soup, structured adversarial shapes (EQU cycles with and without ;assert, FOR with undefined/ill-formed counts, lexer errors inside FOR bodies, missing/stray/unterminated ROF, long EQU chains, diamond EQU graphs, very long lines, hundreds of labels, pseudo-ops in odd places, counters in counts) and mutations of those; both dialects x {nano, tiny, 8000, 8192/300, 2^34} configurations. Inputs whose own expansion estimate exceeds 2*10^4 tokens are discarded (counted). Each case runs in an isolated worker process: must return within 5 s (a timeout is confirmed once with 30 s; otherwise 'slow, inconclusive'), not panic, not kill the process, stay under a 1 GiB heap, return error xor warrior (error => zero WarriorData; success => non-nil Code), and leave no goroutine with a gmars frame after a 200 ms settle loop. Non-trivial: contains FOR/EQU/;assert and is mutated, or is adversarial-shaped; distinct by case hash."
+const c05Rule = "inputs: valid programs (C03 and C08 generators), 1..6 token/byte mutations of them (delete/duplicate/transpose/replace/insert vocabulary words, line splices, truncation, NUL/^Z/0xFF/lone 0xC3/CR injection, CRLF, final newline removed, huge numbers), token soup, structured adversarial shapes (EQU cycles with and without ;assert, FOR with undefined/ill-formed counts, lexer errors inside FOR bodies, missing/stray/unterminated ROF, long EQU chains, diamond EQU graphs, very long lines, hundreds of labels, pseudo-ops in odd places, counters in counts) and mutations of those; both dialects x {nano, tiny, 8000, 8192/300, 2^34} configurations. Inputs whose own expansion estimate exceeds 2*10^4 tokens are discarded (counted). Each case runs in an isolated worker process: must return within 5 s (a timeout is confirmed once with 30 s; otherwise 'slow, inconclusive'), not panic, not kill the process, stay under a 256 MiB heap, return error xor warrior (error => zero WarriorData; success => non-nil Code), and leave no goroutine with a gmars frame after a 200 ms settle loop. Non-trivial: contains FOR/EQU/;assert and is mutated, or is adversarial-shaped; distinct by case hash."
 
 func TestC05(t *testing.T) {
 	defer func() {
